@@ -87,7 +87,7 @@ def opShape (w : World) (op : Op) : String :=
       | some (k, l) =>
         (match l.status with | .preparing => "p" | .finalized => "f" | .closed => "c") ++
         (if some k.1 == sender then "o" else "x") ++
-        (match l.expiresAt with | some e => if w.nowNs < e then "<" else if w.nowNs == e then "=" else ">" | none => "")
+        (match l.expiresAt with | some e => if w.nowNs + NS ≤ e then "<" else if w.nowNs < e then "~" else if w.nowNs == e then "=" else ">" | none => "")
   let bs := match tb with
     | none => "-"
     | some id =>
@@ -206,6 +206,8 @@ def processStep (st : DState) (si : StepIn) : DState × String := Id.run do
       if adopt then st' := { st' with crB := id :: st'.crB }
     | none => pure ()
   if adopt && !ghostOk pw st'.charged then orc := orc ++ ["o10"]
+  -- C04: the bucket id a purchase is paid with names one bucket only
+  if !oracle04b cur si.op io.ok then orc := orc ++ ["o04b"]
   -- C10: the pool messages of a response are exactly the recorded fees that leave the records
   if (io.ok || !io.msgs.isEmpty) && si.fault.isNone then
     if !oracle10m cur si.op (sortCodes (io.msgs.map implMsgCode)) then orc := orc ++ ["o10m"]
